@@ -6,7 +6,8 @@ open Pyemv Pyemv.Gen
 theorem sm_format_vis (mk : Bytes) (p : StrOrBytes) (c : Option StrOrBytes) :
     Gen.sm.format_vis_pin_block mk p c = formatVisPinBlock mk p c := by
   unfold Gen.sm.format_vis_pin_block formatVisPinBlock
-  simp only [tools_xor, rep_flatten, zeros, bind, Except.bind, pure, Except.pure]
+  try simp only [bind_pure]      -- `do let v ← e; pure v` is `e` (single-exit rewrites)
+  simp only [tools_xor, rep_flatten, zeros, bind, Except.bind, pure, Except.pure, except_match_eta]
   by_cases g1 : p.len < 4 ∨ p.len > 12
   · simp [g1, throw, throwThe, MonadExceptOf.throw]
   by_cases g2 : mk.length = 16
